@@ -386,6 +386,15 @@ func (h *genericContextualizer) calculateCacheKey(
 
 		hash.Write([]byte{0})
 	}
+	// the url and the headers of the endpoint are templates, which can refer to the results of the
+	// previous pipeline steps. The response depends then on these as well.
+	if h.e.RefersTo("Outputs") {
+		outputs, _ := json.Marshal(ctx.Outputs())
+
+		hash.Write(outputs)
+		hash.Write([]byte{0})
+	}
+
 	hash.Write(stringx.ToBytes(payload))
 	hash.Write(ttlBytes)
 	hash.Write(sub.Hash())
